@@ -19,7 +19,7 @@ CLAIMED.update({
  "C02": ("finite string-partition abstract evaluation of the version predicate and draft detector; dominance of the version gate; reachability of field reads before the draft-07 $ref short-circuit; access-path provenance of inherited $schema and draft; dominating draft guards of anchor registration",
          "Structure of draft selection decided for all inputs: the set of supported $schema values, refusal before evaluation, the $ref short-circuit and $id-beside-$ref rule under draft-07, root provenance of the inherited draft, draft gating of anchors, and every use of a keyword that exists in one draft only happening under the test for that draft. Not the draft-07 verdict of concrete cases.", "4/C02"),
  "C05": ("type-level recomputation of the marshal and unmarshal field tables (encoding/json field resolution re-implemented over go/types) and comparison with the Schema struct; guard and post-dominance rules on the splice helpers",
-         "Agreement of the writer's and the reader's keyword tables for every field, preservation of significant empty containers, exact boolean folding, unconditional purge of known names from Extra, integer keyword shadowing, const-null handling, exact JSON-name set. Not byte identity or value fidelity.", "4/C05"),
+         "Agreement of the writer's and the reader's keyword tables for every field, preservation of significant empty containers, exact boolean folding, unconditional purge of known names from Extra, integer keyword shadowing, const-null handling, exact JSON-name set, keyword names letter for letter those of the specifications, 32-bit range of integer keywords exact at both ends, boolean documents overwrite the receiver. Not byte identity or value fidelity.", "4/C05"),
  "C17": ("type-level registry completeness; dominating guards in the pointer field lookup; constant tables of the escape replacers; guard analysis of the pointer walker (checked assertion, validity tests, both index bounds)",
          "Every schema-bearing field is registered and addressable, ambiguous JSON names are special-cased before the last-writer-wins map, escape tables are RFC 6901's, failed lookups become errors, exactly one leading slash is removed before the pointer is split, no error of the resolution code is overwritten or dropped before it is looked at, no error variable is returned where it is known to be nil. Not which subschema a concrete pointer selects.", "4/C17"),
  "C20": ("type-level registry completeness; sibling agreement on the three shapes across traversals; control-dependence of the clone write-backs; allocation-site freshness of cloned containers and elements",
@@ -39,7 +39,7 @@ CLAIMED.update({
  "C11": ("guard/dominance analysis of the equality function: numbers first through the exact extractor, exactness lint over the closure of Equal, reflect-kind dataflow at the kind-mismatch exit, length-before-elements and missing-key guards on every recursive call, kind sets at explicit panics",
          "Structure of JSON equality decided for all inputs: exact numeric comparison first, number never equals non-number, wrappers stripped on both sides, arrays vs slices element-wise, lengths before elements, missing keys unequal, identity shortcuts after length tests, every recursion pairs a part of one operand with a part of the other, panics only outside the JSON domain, Go equality (Value.Equal, DeepEqual) only for bool and string kinds, the number extractor never answers not-a-number for a recognised number (one known finding: exponents big.Rat refuses). Not the algebraic laws.", "4/C11"),
  "C12": ("control dependence of the enum/const/uniqueItems failure exits on the equality function; must-pass-through of bucket recording; sibling agreement between hasher and equality via reflect-kind dataflow at every hash write; sort-before-use of map keys; def-use of the hash seed",
-         "enum/const/uniqueItems are decided by the equality function, every item is recorded and compared with its whole bucket (two different positions), the hash is representation independent and deterministic for equal values, one seed per call. Includes the C11 equality clauses. Not collision behaviour.", "4/C12"),
+         "enum/const/uniqueItems are decided by the equality function, every item is recorded and compared with its whole bucket (two different positions), the hash is representation independent and deterministic for equal values, one seed per call, equality and hasher agree on unexported struct fields, sorts of map keys are total. Includes the C11 equality clauses. Not collision behaviour.", "4/C12"),
 })
 
 CLAIMED.update({
@@ -65,7 +65,7 @@ CLAIMED.update({
 
 CLAIMED.update({
  "C10": ("inventory of explicit panics and assertions with reflect-kind dataflow at each; kind-precondition analysis of every partial reflect operation with call-site propagation; iterator-protocol reachability; nil-guard dominance for callback and (nil, nil) results; strongly connected components of the static call graph against a table of terminating shapes, each with its own checked obligation",
-         "Panic sites unreachable for JSON-shaped inputs or discharged by named rules, partial reflect operations guarded, iterators obey the yield protocol, callback and optional results nil-tested, every recursive component of a known terminating shape with its seen-set / cache / tree-check obligation, element-type walks bounded by a visited set, prefix slices guarded by a length comparison, constant-index reads of strings and slices guarded by a length test. Not the absence of all run-time panics.", "4/C10"),
+         "Panic sites unreachable for JSON-shaped inputs or discharged by named rules, partial reflect operations guarded, iterators obey the yield protocol, callback and optional results nil-tested, every recursive component of a known terminating shape with its seen-set / cache / tree-check obligation, element-type walks bounded by a visited set, prefix slices guarded by a length comparison, constant-index reads of strings and slices guarded by a length test, partial helpers checked at every call site (closures called through variables included). Not the absence of all run-time panics.", "4/C10"),
 })
 
 NOT_YET = "static clauses designed in DESIGN.md section 4 but the rule is not built yet in this session"
